@@ -1086,6 +1086,11 @@ fn decode_enumeration(ctx: &Ctx, col: &Collector) {
             jobs.push(Job { spec: base(pattern_frames(f, 2), ym, stereo, 2), block: 4096, style: Lh5Style::Explicit });
         }
     }
+    // decoded sizes in every relation to power-of-two work-buffer sizes of a loader (frames x 14 a
+    // multiple of 1024 / 4096 / 8192, one below and one above)
+    for f in [511usize, 512, 513, 1023, 1024, 1025, 2047, 2048, 2049, 4096] {
+        jobs.push(Job { spec: base(pattern_frames(f, 0), false, 1, 1), block: 4096, style: Lh5Style::Flat });
+    }
     par_for(jobs.len(), 4, |i| {
         let j = &jobs[i];
         match decode_case(&j.spec, j.block, j.style, false) {
